@@ -93,6 +93,10 @@ func nidCl(nid string) bool {
 	}
 	nid = strings.ToLower(nid)
 	nid = nonDigitOrK.ReplaceAllString(nid, "")
+	if len(nid) < 2 {
+		// nothing but separators: there is no number and check digit to slice
+		return false
+	}
 	rut, _ := strconv.Atoi(nid[:len(nid)-1])
 	dv := nid[len(nid)-1:]
 
